@@ -194,6 +194,8 @@ class CFG:
             return self._try(st, preds)
         if isinstance(st, ast.Match):
             raise AnalysisError("match statements are not supported by the CFG builder")
+        if isinstance(st, ast.Expr) and isinstance(st.value, ast.Constant):
+            return preds  # docstring / bare constant: no effect, not a node
         n = self._new("stmt", st)
         self._link(preds, n)
         if isinstance(st, ast.Return):
